@@ -9,6 +9,7 @@ package main
 import (
 	"fmt"
 	"math/rand"
+	"runtime"
 	"sort"
 	"strings"
 	"sync"
@@ -446,7 +447,44 @@ func TestVerifC05(t *testing.T) {
 	model := c05Model()
 	overlaps, okc, unknown := 0, 0, 0
 	for i := 0; i < nconc && run.Violations() <= 5; i++ {
-		ops, ov := c05Concurrent(rnd, i%2 == 0)
+		// bounded progress: a history of ~60 operations that does not finish within a
+		// minute means dispatchers and membership changers block each other for good
+		type hres struct {
+			ops []porcupine.Operation
+			ov  int
+		}
+		hch := make(chan hres, 1)
+		hseed := rnd.Int63()
+		go func() {
+			o, v := c05Concurrent(rand.New(rand.NewSource(hseed)), i%2 == 0)
+			hch <- hres{o, v}
+		}()
+		var ops []porcupine.Operation
+		var ov int
+		select {
+		case r := <-hch:
+			ops, ov = r.ops, r.ov
+		case <-time.After(60 * time.Second):
+			buf := make([]byte, 1<<19)
+			buf = buf[:runtime.Stack(buf, true)]
+			var stuck []string
+			for _, gs := range strings.Split(string(buf), "\n\n") {
+				if strings.Contains(gs, "RoundRobinBackend") {
+					if len(gs) > 900 {
+						gs = gs[:900]
+					}
+					stuck = append(stuck, gs)
+				}
+			}
+			if len(stuck) > 6 {
+				stuck = stuck[:6]
+			}
+			run.Violation("dispatches racing with membership changes never returned (the rotation's operations block each other)", map[string]any{"history_number": i, "goroutines": stuck})
+			run.Observe("concurrent_histories", i)
+			run.Exhaustive(false)
+			vfFinish(t, run, 1000)
+			return
+		}
 		overlaps += ov
 		res, _ := porcupine.CheckOperationsVerbose(model, ops, 60*time.Second)
 		switch res {
@@ -511,15 +549,47 @@ func TestVerifC05(t *testing.T) {
 		n := ev.Pick(1500000, 30000000)
 		var failed, panics int64
 		firstBad := ""
-		for i := 0; i < n && panics == 0 && failed < 5; i++ {
-			var err error
-			if p := vfRecover("dispatch", func() { err = rb.Send(nil) }); p != "" {
-				panics++
-				firstBad = p
-			} else if err != nil {
-				failed++
-				if firstBad == "" {
-					firstBad = fmt.Sprintf("dispatch %d failed: %v", i, err)
+		var progress int64
+		hammerDone := make(chan struct{})
+		go func() {
+			defer close(hammerDone)
+			for i := 0; i < n && panics == 0 && failed < 5; i++ {
+				var err error
+				if p := vfRecover("dispatch", func() { err = rb.Send(nil) }); p != "" {
+					panics++
+					firstBad = p
+				} else if err != nil {
+					failed++
+					if firstBad == "" {
+						firstBad = fmt.Sprintf("dispatch %d failed: %v", i, err)
+					}
+				}
+				atomic.AddInt64(&progress, 1)
+			}
+		}()
+		// bounded progress: the dispatcher must keep moving while members come and go
+		stalledFor := 0
+		last := int64(-1)
+	watch:
+		for {
+			select {
+			case <-hammerDone:
+				break watch
+			case <-time.After(5 * time.Second):
+				cur := atomic.LoadInt64(&progress) + atomic.LoadInt64(&changes)
+				if cur == last {
+					stalledFor += 5
+				} else {
+					stalledFor = 0
+				}
+				last = cur
+				if stalledFor >= 60 {
+					run.Violation("dispatch and membership changes block each other for good (no dispatch and no change completed for 60 s)", map[string]any{"dispatches_done": atomic.LoadInt64(&progress), "membership_changes_done": atomic.LoadInt64(&changes)})
+					run.Observe("hammer_dispatches", atomic.LoadInt64(&progress))
+					run.Eval("hammer-stalled")
+					run.Exhaustive(false)
+					vfFinish(t, run, 1000)
+					return
 				}
 			}
 		}
